@@ -901,88 +901,94 @@ def compile_main(raw_args: Optional[Sequence[str]] = None) -> None:
         wheeldir = tempfile.mkdtemp()
         delete_wheeldir = True
 
-    input_args = args.requirement_files
-    if not input_args:
-        # Check to see whether stdin is hooked up to piped data or the console
-        if not sys.stdin.isatty():
-            input_args = ("-",)
-        else:
-            input_args = (".",)
-
-    extra_parameters: List[str] = []
     try:
-        input_reqs = [
-            _create_input_reqs(input_arg, extra_parameters) for input_arg in input_args
-        ]
-    except ValueError as ex:
-        print(f"ERROR: {ex}", file=sys.stderr)
-        sys.exit(1)
+        input_args = args.requirement_files
+        if not input_args:
+            # Check to see whether stdin is hooked up to piped data or the console
+            if not sys.stdin.isatty():
+                input_args = ("-",)
+            else:
+                input_args = (".",)
 
-    for req in list(input_reqs):
-        if isinstance(req, RequirementsFile):
-            if req.parameters:
-                extra_parameters.extend(req.parameters)
+        extra_parameters: List[str] = []
+        try:
+            input_reqs = [
+                _create_input_reqs(input_arg, extra_parameters) for input_arg in input_args
+            ]
+        except ValueError as ex:
+            print(f"ERROR: {ex}", file=sys.stderr)
+            sys.exit(1)
 
-    if extra_parameters:
-        req_param_parser = argparse.ArgumentParser()
-        add_repo_args(req_param_parser)
-        req_param_parser.add_argument(
-            "-e",
-            "--editable",
-            dest="editable_sources",
-            action="append",
-            default=[],
-            help="A local project directory",
-        )
+        for req in list(input_reqs):
+            if isinstance(req, RequirementsFile):
+                if req.parameters:
+                    extra_parameters.extend(req.parameters)
 
-        req_args = req_param_parser.parse_args(extra_parameters)
-
-        all_index_urls = OrderedDict(zip(args.index_urls, repeat(None)))
-        for url in req_args.index_urls:
-            all_index_urls[url] = None
-        args.index_urls = list(all_index_urls)
-
-        all_extra_index_urls = OrderedDict(zip(args.extra_index_urls, repeat(None)))
-        for url in req_args.extra_index_urls:
-            all_extra_index_urls[url] = None
-        args.extra_index_urls = list(all_extra_index_urls)
-
-        for editable_source in req_args.editable_sources:
-            input_reqs.append(_create_dist_from_path(editable_source))
-        args.sources += req_args.editable_sources
-
-    constraint_reqs = []
-    if args.constraints is not None:
-        constraint_reqs = [
-            _create_input_reqs(input_arg, []) for input_arg in args.constraints
-        ]
-
-    if args.extras:
-        for req in input_reqs:
-            try:
-                extra_req = pkg_resources.Requirement.parse(
-                    req.name + "[{}]".format(",".join(args.extras))
-                )
-            except pkg_resources.RequirementParseError:  # type: ignore[attr-defined]
-                continue
-            extra_constraint = DistInfo(
-                "{}-extra".format(req.name), None, [extra_req], meta=True
+        if extra_parameters:
+            req_param_parser = argparse.ArgumentParser()
+            add_repo_args(req_param_parser)
+            req_param_parser.add_argument(
+                "-e",
+                "--editable",
+                dest="editable_sources",
+                action="append",
+                default=[],
+                help="A local project directory",
             )
-            constraint_reqs.append(extra_constraint)
 
-    repo = build_repo(
-        args.solutions,
-        args.upgrade_packages,
-        args.sources,
-        args.excluded_sources,
-        args.find_links,
-        args.index_urls,
-        wheeldir,
-        extra_index_urls=args.extra_index_urls,
-        no_index=args.no_index,
-        allow_prerelease=args.allow_prerelease,
-    )
-    try:
+            req_args = req_param_parser.parse_args(extra_parameters)
+
+            all_index_urls = OrderedDict(zip(args.index_urls, repeat(None)))
+            for url in req_args.index_urls:
+                all_index_urls[url] = None
+            args.index_urls = list(all_index_urls)
+
+            all_extra_index_urls = OrderedDict(zip(args.extra_index_urls, repeat(None)))
+            for url in req_args.extra_index_urls:
+                all_extra_index_urls[url] = None
+            args.extra_index_urls = list(all_extra_index_urls)
+
+            for editable_source in req_args.editable_sources:
+                input_reqs.append(_create_dist_from_path(editable_source))
+            args.sources += req_args.editable_sources
+
+        constraint_reqs = []
+        if args.constraints is not None:
+            constraint_reqs = [
+                _create_input_reqs(input_arg, []) for input_arg in args.constraints
+            ]
+
+        if args.extras:
+            for req in input_reqs:
+                try:
+                    extra_req = pkg_resources.Requirement.parse(
+                        req.name + "[{}]".format(",".join(args.extras))
+                    )
+                except pkg_resources.RequirementParseError:  # type: ignore[attr-defined]
+                    continue
+                extra_constraint = DistInfo(
+                    "{}-extra".format(req.name), None, [extra_req], meta=True
+                )
+                constraint_reqs.append(extra_constraint)
+
+        try:
+            repo = build_repo(
+                args.solutions,
+                args.upgrade_packages,
+                args.sources,
+                args.excluded_sources,
+                args.find_links,
+                args.index_urls,
+                wheeldir,
+                extra_index_urls=args.extra_index_urls,
+                no_index=args.no_index,
+                allow_prerelease=args.allow_prerelease,
+            )
+        except RepositoryInitializationError:
+            raise
+        except ValueError as ex:
+            print(f"ERROR: {ex}", file=sys.stderr)
+            sys.exit(1)
         results, roots = perform_compile(
             input_reqs,
             repo,
